@@ -46,13 +46,15 @@ pub enum Kind {
     TupCalls,
     /// stateful calls as the fields of a record literal
     RecCalls,
+    /// a stateful call as the argument of another stateful call
+    ArgCall,
 }
 
 /// Kinds used for generation. `Kind::Gate` (stateful calls in both arms of an `if`) is NOT in this
 /// list: on the pinned tree the VM underflows its state position on such programs (panic with
 /// overflow checks, heap corruption / abort without) even in a fault-free run. That is a crash of
 /// an accepted program (C03/C05 territory, not claimed here) and would only kill workers.
-pub const ALL_KINDS: [Kind; 24] = [
+pub const ALL_KINDS: [Kind; 25] = [
     Kind::Counter,
     Kind::Leaky,
     Kind::Lag2,
@@ -77,6 +79,7 @@ pub const ALL_KINDS: [Kind; 24] = [
     Kind::DlySrc,
     Kind::TupCalls,
     Kind::RecCalls,
+    Kind::ArgCall,
 ];
 
 #[derive(Clone, Copy, Debug, PartialEq, Serialize, Deserialize)]
@@ -168,6 +171,7 @@ impl Voice {
             Kind::DlySrc => format!("dlysrc{}", self.id),
             Kind::TupCalls => "tupcalls".into(),
             Kind::RecCalls => "reccalls".into(),
+            Kind::ArgCall => "argcall".into(),
         };
         base
     }
@@ -192,7 +196,7 @@ impl Voice {
             Kind::Echo => vec![x, lit(self.p[0])],
             Kind::EchoMod => vec![x, lit(self.p[0]), lit(self.p[1])],
             Kind::Pair => vec![lit(self.p[0])],
-            Kind::Nest | Kind::Deep | Kind::CntMem | Kind::TupCalls | Kind::RecCalls => vec![lit(self.p[0])],
+            Kind::Nest | Kind::Deep | Kind::CntMem | Kind::TupCalls | Kind::RecCalls | Kind::ArgCall => vec![lit(self.p[0])],
             Kind::Late | Kind::LateMem => vec![lit(self.p[0]), lit(self.p[1])],
             Kind::Gate => vec![lit(self.p[0]), lit(self.p[1]), lit(self.p[2])],
             Kind::Comb => vec![x, lit(self.p[0]), lit(self.p[1])],
@@ -267,6 +271,14 @@ impl Voice {
                 "fn pair(a){\n  let (p,q) = self\n  (q + a, p)\n}".into(),
             )],
             Kind::Nest => vec![cnt, nest],
+            Kind::ArgCall => vec![
+                cnt,
+                ("leaky".into(), "fn leaky(x,g){\n  x + self * g\n}".into()),
+                (
+                    "argcall".into(),
+                    "fn argcall(inc){\n  leaky(cnt(inc), 0.5) + leaky(cnt(inc * 2.0), 0.25)\n}".into(),
+                ),
+            ],
             Kind::RecCalls => vec![
                 cnt,
                 (
@@ -421,6 +433,7 @@ impl Model {
         let ns = match v.kind {
             Kind::Counter | Kind::Leaky | Kind::Clk | Kind::SrPhase | Kind::ArrPhase | Kind::GlobK | Kind::MainCl => 1,
             Kind::Lag2 | Kind::Mfb | Kind::Pair | Kind::Nest | Kind::CntMem | Kind::Late | Kind::TupCalls => 2,
+            Kind::ArgCall => 4,
             Kind::Gate | Kind::Wide | Kind::Deep | Kind::Mmf | Kind::LateMem | Kind::RecCalls => 3,
             Kind::Echo | Kind::Duo => 0,
             Kind::EchoMod | Kind::Comb | Kind::DlySrc => 1,
@@ -534,6 +547,13 @@ impl Model {
                 self.s[1] += p[0] * 2.0;
                 self.s[0] - self.s[1] * 0.25
             }
+            Kind::ArgCall => {
+                self.s[0] += p[0];
+                self.s[1] = self.s[0] + self.s[1] * 0.5;
+                self.s[2] += p[0] * 2.0;
+                self.s[3] = self.s[2] + self.s[3] * 0.25;
+                self.s[1] + self.s[3]
+            }
             Kind::RecCalls => {
                 self.s[0] += p[0];
                 self.s[1] += p[0] * 2.0;
@@ -632,7 +652,7 @@ pub fn gen_voice(rng: &mut Rng, id: u32, kind: Kind, n_in: u32, max_delay: u32) 
     };
     let mut p = [0.0; 3];
     match kind {
-        Kind::Counter | Kind::Pair | Kind::Nest | Kind::Deep | Kind::CntMem | Kind::Wide | Kind::Clk | Kind::TupCalls | Kind::RecCalls => {
+        Kind::Counter | Kind::Pair | Kind::Nest | Kind::Deep | Kind::CntMem | Kind::Wide | Kind::Clk | Kind::TupCalls | Kind::RecCalls | Kind::ArgCall => {
             p[0] = small(rng)
         }
         Kind::SrPhase => p[0] = *rng.pick(&[110.0, 440.0, 1000.0, 12000.0]),
@@ -705,7 +725,7 @@ pub fn gen_voice(rng: &mut Rng, id: u32, kind: Kind, n_in: u32, max_delay: u32) 
 /// has no editable constant.
 pub fn tweak_constant(rng: &mut Rng, v: &mut Voice) -> bool {
     match v.kind {
-        Kind::Counter | Kind::Pair | Kind::Nest | Kind::Deep | Kind::CntMem | Kind::Wide | Kind::Clk | Kind::SrPhase | Kind::GlobK | Kind::MainCl | Kind::TupCalls | Kind::RecCalls => {
+        Kind::Counter | Kind::Pair | Kind::Nest | Kind::Deep | Kind::CntMem | Kind::Wide | Kind::Clk | Kind::SrPhase | Kind::GlobK | Kind::MainCl | Kind::TupCalls | Kind::RecCalls | Kind::ArgCall => {
             v.p[0] += (rng.range(1, 8) as f64) * 0.25;
             true
         }
